@@ -128,7 +128,8 @@ class InputFileScenario(BaseScenario):
                     "dep_on_optional": rng.random() < 0.3, "group_enabled": rng.random() < 0.5, "g2_optional": rng.random() < 0.5, "g2_enabled": rng.random() < 0.5,
                     "g2_dependency": rng.random() < 0.45, "one_a_enabled": rng.random() < 0.6, "one_b_enabled": rng.random() < 0.6, "update_enabled": rng.random() < 0.8, "one_open": rng.random() < 0.5,
                     "g2_dep_type": rng.choice(["enabled", "disabled"]), "g2_both": rng.random() < 0.6}
-        include = sorted(k for k in ["s", "i_opt", "f", "flag", "choice", "obj", "dat", "pg", "dv", "dep", "g1", "g2", "one"] if rng.random() < 0.7)
+        include = sorted(k for k in ["s", "i_opt", "f", "flag", "choice", "obj", "dat", "pg", "dv", "dep", "g1", "g2", "one", "obj2"] if rng.random() < 0.7)
+        switches["obj2_enabled"] = rng.random() < 0.5
         return {"gc": rng.choices(["none", "op"], [5, 5])[0], "gc_density": 0.3, "h5repack": "absent", "n_ops": rng.choice([4, 8, 12, 20]), "switches": switches,
                 "include": include, "promotion": rng.random() < 0.85}
 
@@ -182,6 +183,9 @@ class InputFileScenario(BaseScenario):
             ui["choice"] = {"label": "c", "value": "a", "choiceList": ["a", "b", "c"]}
         if "obj" in inc or "dat" in inc or "pg" in inc or "dv" in inc:
             ui["obj"] = {"label": "o", "value": env["A"].uid, "meshType": [str(env["A"].entity_type.uid)]}
+        if "obj2" in inc:
+            # a second entity selector with its own None rule (optional), next to the required one
+            ui["obj2"] = {"label": "o2", "value": env["B"].uid, "meshType": [str(env["B"].entity_type.uid)], "optional": True, "enabled": sw.get("obj2_enabled", True)}
         if "dat" in inc:
             ui["dat"] = {"label": "d", "value": env["a1"].uid, "parent": "obj", "association": "Vertex", "dataType": "Float"}
             if sw["dat_optional"]:
@@ -248,6 +252,7 @@ class InputFileScenario(BaseScenario):
             "flag": [True, False, "yes", None, 1],
             "choice": ["a", "b", "c", "z", 3, None],
             "obj": [env["A"], env["B"], env["A"].uid, env["B"].uid, env["ghost"], "not-a-uuid", 5, None, env["C"]],
+            "obj2": [env["A"], env["B"], env["B"].uid, env["ghost"], "not-a-uuid", None, None],
             "dat": [env["a1"], env["a2"], env["b1"], env["a1"].uid, env["b1"].uid, None, env["ghost"], "zzz", 4.0]
             + ([env["a_new"], env["a_new"].uid, env["a_new"]] if "a_new" in env else []) + ([env["a_gone"], env["a_gone"]] if "a_gone" in env else []),
             "pg": [env["pgA"], env["pgV"], env["pgB"], env["pgA"].uid, None, env["a1"]],
@@ -453,7 +458,7 @@ class InputFileScenario(BaseScenario):
             raise Violation("C15", "verdict_differs", f"{what}: the aged object says {ver_a[0]} ({ver_a[1]}); a fresh InputValidation on the same form, asked directly for "
                             f"this key and value, says {ver_v[0]} ({ver_v[1]})",
                             {"api": kind, "via": "validators", "aged": "accept" if ver_a[0] == "accept" else "reject", "stale_switch": bool(stale), "one_of": False})
-        if ver_v is not None and value is None and key in ("i_opt", "dat", "pg", "dep", "g1", "g2", "s", "f", "choice", "obj") and key in aged_form:
+        if ver_v is not None and value is None and key in ("i_opt", "dat", "pg", "dep", "g1", "g2", "s", "f", "choice", "obj", "obj2") and key in aged_form:
             # reference model for the switch hierarchy that decides whether None is allowed (fresh object: no staleness involved)
             sim.oracle("none_rule_model")
             needs = ref_requires(aged_form, key)
@@ -467,7 +472,7 @@ class InputFileScenario(BaseScenario):
         if ver_v is not None and sweep:
             # the same model asked for every form of the current switch state (each history reaches other combinations)
             sim.probe("none_sweep")
-            for k2 in ("i_opt", "dat", "pg", "dep", "g1", "g2", "s", "f", "choice", "obj"):
+            for k2 in ("i_opt", "dat", "pg", "dep", "g1", "g2", "s", "f", "choice", "obj", "obj2"):
                 rules2 = (ref_holder["r"].validations or {}).get(k2)
                 if k2 not in aged_form or rules2 is None:
                     continue
@@ -552,7 +557,7 @@ def ref_requires(ui, key):
     return own()
 
 
-IF_DOMAIN_KEYS = {"s", "i_opt", "f", "flag", "choice", "obj", "dat", "pg", "dv", "dep", "g1", "g2", "one_a", "one_b", "title", "run_command", "conda_environment_boolean"}
+IF_DOMAIN_KEYS = {"obj2", "s", "i_opt", "f", "flag", "choice", "obj", "dat", "pg", "dv", "dep", "g1", "g2", "one_a", "one_b", "title", "run_command", "conda_environment_boolean"}
 
 
 # ================================================================================================ Parameters / forms / pools
